@@ -26,12 +26,16 @@ struct BSpec {
 struct Gen {
     specs: Rc<Vec<BSpec>>,
     built: Rc<Cell<usize>>,
+    slow: bool,
 }
 
 struct Seq {
     specs: Rc<Vec<BSpec>>,
     built: Rc<Cell<usize>>,
     idx: usize,
+    /// `cfg:p`: the stream answers Pending (after waking the task) once before every item and before the end
+    slow: bool,
+    parked: bool,
 }
 
 impl Seq {
@@ -54,8 +58,14 @@ impl futures::Stream for Seq {
     type Item = FluentBundleResult<FluentResource>;
     fn poll_next(
         mut self: std::pin::Pin<&mut Self>,
-        _cx: &mut std::task::Context<'_>,
+        cx: &mut std::task::Context<'_>,
     ) -> std::task::Poll<Option<Self::Item>> {
+        if self.slow && !self.parked {
+            self.parked = true;
+            cx.waker().wake_by_ref();
+            return std::task::Poll::Pending;
+        }
+        self.parked = false;
         self.produce().into()
     }
 }
@@ -67,11 +77,11 @@ impl BundleGenerator for Gen {
     type Stream = Seq;
 
     fn bundles_iter(&self, _locales: Self::LocalesIter, _res_ids: FxHashSet<ResourceId>) -> Seq {
-        Seq { specs: self.specs.clone(), built: self.built.clone(), idx: 0 }
+        Seq { specs: self.specs.clone(), built: self.built.clone(), idx: 0, slow: self.slow, parked: false }
     }
 
     fn bundles_stream(&self, _locales: Self::LocalesIter, _res_ids: FxHashSet<ResourceId>) -> Seq {
-        Seq { specs: self.specs.clone(), built: self.built.clone(), idx: 0 }
+        Seq { specs: self.specs.clone(), built: self.built.clone(), idx: 0, slow: self.slow, parked: false }
     }
 }
 
@@ -102,7 +112,7 @@ fn run(payload: &str) -> String {
     let segs: Vec<&str> = payload.split(';').collect();
     let sync = match segs.first() {
         Some(&"cfg:s") => true,
-        Some(&"cfg:a") => false,
+        Some(&"cfg:a") | Some(&"cfg:p") => false,
         _ => return "bad-case".to_string(),
     };
     let nb = segs[1..].iter().take_while(|s| s.starts_with("b:")).count();
@@ -113,7 +123,7 @@ fn run(payload: &str) -> String {
     };
     let ops = &segs[1 + nb..];
     let built = Rc::new(Cell::new(0usize));
-    let generator = Gen { specs: specs.clone(), built: built.clone() };
+    let generator = Gen { specs: specs.clone(), built: built.clone(), slow: segs[0] == "cfg:p" };
     let provider: Vec<LanguageIdentifier> = specs.iter().filter_map(|s| s.locale.clone()).collect();
     let bundles: Bundles<Gen> = Bundles::new(sync, FxHashSet::default(), &generator, &provider);
 
